@@ -279,6 +279,25 @@ def run(ctx):
     ctx.decide(not dev_kw and moves, "C15.a2n", a2n.ident, loc_of(a2n, dev_kw[0] if dev_kw else None), "array_to_namespace moves arrays with safe_to_device and passes no device to asarray",
                "array_to_namespace hands the set's device to asarray (or no longer uses safe_to_device): to_namespace / from_samples forward the source set's device, so a PyTorch set converted "
                "to NumPy or JAX passes torch.device('cpu') to numpy.asarray / jnp.asarray, which raises", disc="device")
+    # ---- NumPy -> PyTorch succeeds for every layout.  Frozen API fact: torch.asarray / as_tensor / from_numpy raise ValueError for a NumPy array with a negative
+    #      stride (what a reversed selection s[::-1] of a NumPy sample set holds).  The conversion helper hands PyTorch a compact copy of such an array.
+    try:
+        asf = repo.func("aspire.utils:asarray")
+    except Exception:  # noqa: BLE001
+        asf = None
+    if asf is None:
+        ctx.unknown("C15.helpers", "aspire.utils:asarray", "src/aspire/utils.py", "the conversion helper asarray was not found", disc="negative-strides")
+    else:
+        handled = False
+        for n_ in walk_no_nested(asf.node):
+            if isinstance(n_, ast.If) and any(isinstance(x_, ast.Call) and getattr(x_.func, "id", getattr(x_.func, "attr", None)) == "is_torch_namespace" for x_ in ast.walk(n_.test)):
+                mentions_layout = any(isinstance(x_, ast.Attribute) and x_.attr in ("strides", "flags") for x_ in ast.walk(n_.test))
+                compacts = any(isinstance(x_, ast.Call) and getattr(x_.func, "attr", getattr(x_.func, "id", None)) in ("copy", "ascontiguousarray", "array") for b_ in n_.body for x_ in ast.walk(b_))
+                if compacts and (mentions_layout or any(isinstance(x_, ast.Call) and getattr(x_.func, "id", getattr(x_.func, "attr", None)) in ("is_numpy_array", "isinstance") for x_ in ast.walk(n_.test))):
+                    handled = True
+        ctx.decide(handled, "C15.helpers", asf.ident, loc_of(asf), "a NumPy array is handed to PyTorch as a compact copy when its layout needs it (negative strides)",
+                   "asarray() passes a NumPy array to torch.asarray as it is: PyTorch raises ValueError for arrays with a negative stride, so a NumPy sample set obtained by a reversed selection "
+                   "(s[::-1]) cannot be converted to PyTorch although every other set can", disc="negative-strides")
     # ---- a conversion must succeed for every ordered pair: no helper turns a library's warnings into errors.  Frozen API fact: torch.as_tensor / torch.asarray
     #      of a read-only NumPy array (NumPy's view of a JAX buffer is one) emits UserWarning("The given NumPy array is not writable ...") and converts; JAX emits
     #      UserWarning when it truncates float64 without x64.  simplefilter("error") around the conversion makes those ordered pairs raise.
@@ -526,6 +545,25 @@ def run(ctx):
                        f"the torch flow is evaluated with autograd enabled (line {bad[0] if bad else ''}) and the result is handed to xp.asarray: a tensor that requires grad "
                        "cannot be converted by NumPy or JAX (RuntimeError: Can't call numpy() on Tensor that requires grad)")
         ctx.floor("torch flow output methods", n_m, 5)
+    # ---- JAX flow outputs can be consumed in any namespace: a JAX array is handed over with the package's asarray(v, xp) helper, which knows the JAX -> PyTorch
+    #      DLPack route.  Frozen API fact (the reason that branch exists): torch.asarray(<jax array>) does not raise, it returns a tensor of another shape and dtype.
+    try:
+        J = repo.cls("aspire.flows.jax.flows:FlowJax")
+    except AnalysisError:
+        J = None
+    if J is not None:
+        n_j = 0
+        for name in ("sample", "sample_and_log_prob", "log_prob", "forward", "inverse"):
+            m = J.methods.get(name)
+            if m is None or "xp" not in m.params:
+                continue
+            n_j += 1
+            raw = [n for n in walk_no_nested(m.node) if isinstance(n, ast.Call) and isinstance(n.func, ast.Attribute) and n.func.attr in ("asarray", "array", "as_tensor")
+                   and isinstance(n.func.value, ast.Name) and n.func.value.id == "xp"]
+            ctx.decide(not raw, "C15.grad", m.ident, loc_of(m, raw[0] if raw else None), "the JAX flow's outputs are handed to the requested namespace through the package's conversion helper",
+                       f"`{ast.unparse(raw[0])[:50]}` hands a JAX array straight to the requested namespace's own asarray: for PyTorch that returns a tensor of the wrong shape and dtype "
+                       "(no DLPack hand-over), so FlowJax outputs cannot be consumed with xp=torch" if raw else "", disc="jax-output")
+        ctx.floor("jax flow output methods", n_j, 5)
     cache_rule(ctx)
     evidence_dtype_rule(ctx)
 
@@ -642,6 +680,8 @@ MUTANTS = [
     M("array_to_namespace skips the conversion when the dtype already matches", _S, "x = asarray(x, self.xp, **kwargs)\n        x = safe_to_device(x, self.device, self.xp)\n        return x",
       "if self.device is None and hasattr(x, \"dtype\") and x.dtype == kwargs[\"dtype\"]:\n            return x\n        x = asarray(x, self.xp, **kwargs)\n        x = safe_to_device(x, self.device, self.xp)\n        return x", "C15.a2n"),
     M("asarray turns backend warnings into errors", "src/aspire/utils.py", "return xp.asarray(x, **kwargs)", "with warnings.catch_warnings():\n        warnings.simplefilter(\"error\", UserWarning)\n        return xp.asarray(x, **kwargs)", "C15.helpers", within="asarray"),
+    M("asarray hands PyTorch negatively strided NumPy arrays as they are", "src/aspire/utils.py", "if (\n        isinstance(x, np.ndarray)\n        and is_torch_namespace(xp)\n        and any(stride < 0 for stride in x.strides)\n    ):\n        x = x.copy()\n", "", "C15.helpers"),
+    M("jax flow hands its draws straight to the requested namespace's asarray", "src/aspire/flows/jax/flows.py", "return asarray(x, xp), asarray(log_prob - log_abs_det_jacobian, xp)", "return xp.asarray(x), xp.asarray(log_prob - log_abs_det_jacobian)", "C15.grad"),
     M("array_to_namespace into numpy always", _S, "x = asarray(x, self.xp, **kwargs)", "x = asarray(x, np, **kwargs)", "C15.a2n"),
 ]
 MUTANTS += [
